@@ -23,7 +23,6 @@ from symx import env, core
 from symx.core import le, lt, ge, gt, eq, ne, and_, or_, implies, not_, iff, ite, is_sym, sym_max, sym_min
 from symx.run import Job
 from props import alglib, simlib
-from props.alglib import PERIOD
 
 FUNCS = alglib.ALG_FUNCS + ["acnportal.algorithms.uncontrolled_charging.UncontrolledCharging.schedule"]
 ASSUMPTIONS = simlib.SIM_ASSUMPTIONS + [
@@ -105,7 +104,7 @@ def _setup(cx, stations, rows, sessions, sort, factory, limit_hi, warmup=False):
     for k, ev in enumerate(sc.evs):
         j = sessions[k][0]
         minp = float(sc.net.min_pilot_signals[j])
-        cx.assume(gt(sc.req[k] - ev.energy_delivered, minp * stations[j][1] / (60 / PERIOD) / 1000 + 1e-3))
+        cx.assume(gt(sc.req[k] - ev.energy_delivered, minp * stations[j][1] / (60 / alglib.PERIOD) / 1000 + 1e-3))
     ks = keys(cx, sc, sort)
     for a in range(len(ks)):
         for b in range(a + 1, len(ks)):
@@ -115,8 +114,9 @@ def _setup(cx, stations, rows, sessions, sort, factory, limit_hi, warmup=False):
     return sc, ks
 
 
-def h_greedy(cx, stations, rows, sessions, sort, limit_hi, uninterrupted=False, warmup=False, estimator=None):
+def h_greedy(cx, stations, rows, sessions, sort, limit_hi, uninterrupted=False, warmup=False, estimator=None, period=5):
     env.install(cx)
+    alglib.PERIOD = period
     import acnportal.algorithms as ALG
 
     holder = {}
@@ -341,6 +341,12 @@ def jobs(tier):
         if wu is True or not q:
             js.append(Job("greedy_second_call[av5+cc,%s%s]" % (sort, tagw), h_greedy, dict(stations=st, rows=[(1, 1)], sessions=SESS2, sort=sort, limit_hi=lh, warmup=wu), functions=FUNCS, max_paths=200000, timeout=6000,
                           bounds=dict(stations=[s_[0] for s_ in st], sessions=2, sort=sort, calls="warm-up call for two other sessions (0.2-0.7 kWh), then the judged call" + ("" if wu is True else "; every constraint updated in between")), cost=60))
+    # a period length that does not divide 60: bounds in A*periods and the laxity / processing-time keys use the exact ratio 60/period
+    for net_name, sort, per in ((("cont+cc", "llf", 45),) if q else (("cont+cc", "llf", 45), ("cont+cc", "lrpt", 7), ("cont+cont(2 rows)", "fcfs", 40))):
+        if net_name in nets:
+            st_, rows_, lh_ = nets[net_name]
+            js.append(Job("greedy[%s,%s,period=%d]" % (net_name, sort, per), h_greedy, dict(stations=st_, rows=rows_, sessions=SESS2, sort=sort, limit_hi=lh_, period=per), functions=FUNCS, max_paths=200000, timeout=6000,
+                          bounds=dict(stations=[s_[0] for s_ in st_], constraints=rows_, sessions=2, sort=sort, period_min=per), cost=60))
     # a rate estimator that bounds one session (possibly above the station maximum) and omits the other
     for net_name, sort in ((("cont+cc", "fcfs"),) if q else (("cont+cc", "fcfs"), ("cont+cc", "lcfs"), ("cont+cont(2 rows)", "edf"))):
         if net_name in nets:
